@@ -36,6 +36,13 @@ func (cm *ChannelMgr) AddChannel(ctx context.Context, chName, chDir string) {
 		return
 	}
 
+	chCfg := cm.channelConfig(chName)
+	cm.channels[chName] = newChannel(ctx, chCfg, chDir)
+}
+
+// channelConfig returns the effective configuration of a channel name: its entry in the config file
+// (or an empty one) completed with the defaults. It does not create the channel.
+func (cm *ChannelMgr) channelConfig(chName string) ChannelConfig {
 	chCfg := ChannelConfig{
 		Name:                 chName,
 		ReceiveNrRawSegments: cm.defaultReceiveNrRawSegments,
@@ -57,7 +64,7 @@ func (cm *ChannelMgr) AddChannel(ctx context.Context, chName, chDir string) {
 	if chCfg.TimeShiftBufferDepthS == 0 {
 		chCfg.TimeShiftBufferDepthS = cm.defaultTimeShiftBufferDepthS
 	}
-	cm.channels[chName] = newChannel(ctx, chCfg, chDir)
+	return chCfg
 }
 
 func (cm *ChannelMgr) GetChannel(chName string) (*channel, bool) {
